@@ -182,6 +182,9 @@ let dispatch name =
      | Some o -> out "Some"; plist pnat o.Orient.o_perm; plist pbool o.Orient.o_flip
      | None -> out "None")
   | "number_model" -> let ps = rlist rnatlist in let (nss, n) = Exec.x_number_model ps in pnat n; plist (plist pnat) nss
+  | "g2_encode" -> let o = robj () in plist pqlist (Exec.q_g2_encode [o])
+  | "g2_decode" -> let ls = rlist rqlist in
+    (match Exec.q_g2_decode (nat_of_int (Stdlib.List.length ls)) ls with Some os -> out "Some"; plist pobj os | None -> out "None")
   | _ -> out ("UNKNOWN " ^ name)
 
 let () =
